@@ -159,6 +159,16 @@ def gen_pattern(rng, L, P, cap, kind):
         ops.append(f"p {'f' if rng.chance(pf) else 'i'} {n} {ns}")
         if pq and rng.chance(pq):
             ops.append("q " + rng.weighted([("hyp", 3), ("seg", 3), ("align", 4)]))
+    if kind == "alignresume":
+        # a partial decoder_alignment every few frames, the first pass resuming right after each (D63 class: the
+        # second pass must leave the scorer exactly where the first pass left it)
+        ops, left = [], L
+        while left > 0:
+            n = min(left, rng.range(3 * P["fshift"], 10 * P["fshift"]), cap)
+            ops.append(f"p {'f' if rng.chance(pf) else 'i'} {n} 0")
+            ops.append("q align")
+            left -= n
+        return ops
     if kind == "bufquery":
         # search some audio, buffer some more without searching, then ask for a partial alignment / result
         ops = []
@@ -200,7 +210,7 @@ def end_edge_lengths(rng, N, P, tier):
         crit = [alloc + win - 2, alloc + win - 1]
         extra = [alloc + d for d in range(-3, 7) if alloc + d not in crit]
         rng.shuffle(extra)
-        picks = crit + extra[:(1 if tier == "quick" else 4)]
+        picks = crit + extra[:(0 if tier == "quick" else 4)]
         for M in picks:
             L = fs + (M - 2) * sh + rng.below(sh)      # M - 1 frames from fe_process, one from fe_end
             if M >= 2 and L <= N and M <= 300:
@@ -230,7 +240,7 @@ def gen_clips(rng, N, P, tier):
     return clips
 
 
-KINDS = ["tinyfirst", "mixed", "queries", "buffered", "huge", "single", "random", "bufquery", "edge"]
+KINDS = ["tinyfirst", "mixed", "queries", "buffered", "huge", "single", "random", "bufquery", "edge", "alignresume"]
 
 # --------------------------------------------------------------------------------------------------
 # running the harness and the model
@@ -276,12 +286,15 @@ def run_harness(binp, g, runs, timeout=1800):
 def record_of(res_line):
     """the result record: everything but buffer positions"""
     body = res_line.split(" | ")[0]
-    return body
+    # alsc (the reads of the alignment pass made while printing the record) is used for the model diff only: it is
+    # legitimately empty when decoder_alignment reuses the alignment a query has just computed at the same frame
+    return " ".join(t for t in body.split() if not t.startswith("alsc="))
 
 
 def public_of(rec):
     """what the property speaks about: hypothesis, path score, decoder_n_frames, segmentation, alignment.
-    The rest of the record (hash of the feature vectors, reads of the alignment pass, cmn->nframe) is internal:
+    The rest of the record (hash of the feature vectors, digest of the senone scores every first-pass step received,
+    cmn->nframe) is internal:
     a difference there alone breaks `features_canonical` on the implementation but is not a visible result."""
     return " ".join(t for t in rec.split() if t.split("=")[0] in ("res", "hyp", "score", "nfr", "segs", "align"))
 
@@ -392,7 +405,15 @@ def branch_stats(P, run, stats):
         d = kv(o.split(" | ")[0])
         fe = d.get("fe", "-")
         fes = [] if fe == "-" else [tuple(int(y) for y in x.split(":")) for x in fe.split(",") if not x.startswith("e")]
-        if op.startswith("p"):
+        if op.startswith("p") and op.endswith(" full"):
+            b["batch call (full_utt = 1)"] += 1
+            if st.get("malloc") != prev.get("malloc"):
+                b["cepstrum buffer enlarged by a batch call"] += 1
+        elif op.startswith("p"):
+            if int(st.get("malloc", P["nmfc"])) > P["nmfc"]:
+                b["streaming call on an enlarged cepstrum ring"] += 1
+                if int(st["nmfc"]) > 0:
+                    b["frames left in the ring after a call (live-buffer clamp)"] += 1
             if prev["st"] == "1" and st["st"] == "1" and fes:
                 b["call yielding no frame while STARTED"] += 1
             if prev["st"] == "1" and st["st"] == "2":
@@ -630,7 +651,7 @@ def new_stats():
             "nosearch": Counter(), "queries": Counter(), "clip_frames": Counter(), "first_chunk_lt_window": 0,
             "one_sample_chunks": 0, "chunks_gt_ring": 0, "utterances": 0, "groups": Counter(),
             "reference_with_hypothesis": 0, "reference_without_hypothesis": 0, "patterns_differing_from_reference": 0,
-            "patterns_differing_in_the_visible_result": 0, "end_edge_frames": Counter()}
+            "patterns_differing_in_the_visible_result": 0, "end_edge_frames": Counter(), "seconds": Counter()}
 
 
 def bucket(n):
@@ -667,6 +688,16 @@ def probe(binp):
 
 def check_group(c, binp, g, cases, cap, stats, label, depth=0, ref_last=False, ref_nosearch=False, warm_full=False,
                 ref_full=False):
+    import time as _t
+    t0 = _t.time()
+    try:
+        return _check_group(c, binp, g, cases, cap, stats, label, depth, ref_last, ref_nosearch, warm_full, ref_full)
+    finally:
+        stats["seconds"][label.split(" M=")[0][:40]] += round(_t.time() - t0, 1)
+
+
+def _check_group(c, binp, g, cases, cap, stats, label, depth=0, ref_last=False, ref_nosearch=False, warm_full=False,
+                 ref_full=False):
     """cases: list of (off, len, cmn, [(kind, ops), ...], cap).  Returns (ok, P).
     ref_last: decode the variants before the reference pattern (on a fresh decoder the variants then meet the
     initial buffer sizes, which the single-call reference would have grown)."""
@@ -848,9 +879,9 @@ def check(c):
                             warm_full=bool(obj.get("warm_up_is_a_full_utt_decode")), ref_full=bool(obj.get("reference_full_utt")))
         allok = allok and ok
     # ---- generated cases
-    npat = 8 if c.tier == "quick" else 40
+    npat = 7 if c.tier == "quick" else 40
     rounds = 1 if c.tier == "quick" else 4
-    groups = GROUPS[:3] if c.tier == "quick" else GROUPS
+    groups = GROUPS[:2] if c.tier == "quick" else GROUPS
     P0 = {"fsize": 410, "fshift": 160, "nmfc": 128}
     nvar = 0
     distinct = set()
@@ -937,6 +968,50 @@ def check(c):
                 ok, P = check_group(c, binp, g, [case], cap, stats, f"generated {g['name']} round {rnd} long clip {fi}",
                                     ref_last=True)
                 allok = allok and ok
+    # ---- the batch regime (full_utt = 1) against itself, and streaming on a decoder whose cepstrum ring an earlier batch
+    #      utterance has enlarged for good (live-buffer clamp, frames left in the ring between calls)
+    for g in (groups[:1] if c.tier == "quick" else groups):
+        if STATE["oracle_failed"]:
+            break
+        rc, err, P, _ = run_harness(binp, g, [])
+        if not P:
+            break
+        N, fs, sh = P["naudio"], P["fsize"], P["fshift"]
+        lens = [min(N, fs + 299 * sh - 1), fs + 2 * sh + c.rng.below(sh), c.rng.range(1, fs - 1)]
+        if c.tier != "quick":
+            lens += [fs, fs + sh, c.rng.range(4000, 20000), c.rng.range(20000, 40000), fs + 127 * sh + c.rng.below(sh)]
+        cases = []
+        for ln in lens:
+            ln = min(ln, N)
+            off = 0 if ln > N - 10 else c.rng.below(N - ln)
+            e = lambda: "f" if c.rng.chance(0.5) else "i"
+            variants = [("full float32", [f"p f {ln} 0 full"]), ("full buffered", [f"p {e()} {ln} 1 full"]),
+                        ("full queries", ["q hyp", f"p {e()} {ln} 1 full", "q seg", "q align"]),
+                        ("full queries", [f"p {e()} {ln} 0 full", "q align", "q hyp", "q align"])]
+            for kind, ops in variants:
+                note_pattern(stats, P, "full_utt", ops, ln)
+                distinct.add(hash((g["name"], off, ln, tuple(ops), "full")))
+                nvar += 1
+            cases.append((off, ln, c.rng.choice(CMNS), variants, cap))
+        ok, P = check_group(c, binp, g, cases, cap, stats, f"batch regime {g['name']}", ref_full=True)
+        allok = allok and ok
+        if STATE["oracle_failed"]:
+            break
+        cases = []
+        for ln in [min(N, fs + 299 * sh - 1), c.rng.range(8000, 30000)] + ([c.rng.range(300, 3000), fs + 130 * sh] if c.tier != "quick" else []):
+            ln = min(ln, N)
+            off = 0 if ln > N - 10 else c.rng.below(N - ln)
+            variants = []
+            for kind in (["huge", "random", "mixed"] if c.tier == "quick" else
+                         ["huge", "random", "buffered", "mixed", "queries", "bufquery", "single", "tinyfirst", "huge", "random"]):
+                ops = gen_pattern(c.rng, ln, P, cap, kind)
+                variants.append((kind, ops))
+                note_pattern(stats, P, "after-batch " + kind, ops, ln)
+                distinct.add(hash((g["name"], off, ln, tuple(ops), "afterfull")))
+                nvar += 1
+            cases.append((off, ln, c.rng.choice(CMNS), variants, cap))
+        ok, P = check_group(c, binp, g, cases, cap, stats, f"streaming after a batch utterance {g['name']}", warm_full=True)
+        allok = allok and ok
     c.oblige("oracle: every generated calling pattern gives the result record of the reference pattern (real decoder, ASan/UBSan)",
              allok)
     c.oblige("correspondence: counters after every call, search steps and window/feature identity agree with the model", allok)
@@ -956,6 +1031,7 @@ def check(c):
                   "one_sample_chunks": stats["one_sample_chunks"], "chunks_larger_than_the_cepstrum_ring": stats["chunks_gt_ring"],
                   "model_branches_hit": dict(stats["branches"]), "model_branches_never_hit": unhit,
                   "per_group_utterances": dict(stats["groups"]), "corpus_cases": ncorp,
+                  "wall_seconds_by_stage": {k: round(v, 1) for k, v in stats["seconds"].items()},
                   "end_of_utterance_edge_clips_on_fresh_decoders (feat_buf size + offset of the frame count)": dict(stats["end_edge_frames"]),
                   "reference_records_with_a_hypothesis": stats["reference_with_hypothesis"],
                   "reference_records_without_a_hypothesis": stats["reference_without_hypothesis"],
